@@ -305,6 +305,12 @@ func (vm *VM) FindElementWithModule(name *IDName) (Element, *Module, error) {
 	return elem, vm.moduleGraph.GetModuleByID(extModuleID), nil
 }
 
+// DeclaredInCurrentBlock - whether the name is a declaration of the block being executed
+func (vm *VM) DeclaredInCurrentBlock(name *IDName) bool {
+	scope := vm.getCurrentScope()
+	return scope != nil && scope.DeclaredInCurrentBlock(name.GetLiteral())
+}
+
 // DeclareElement
 func (vm *VM) DeclareElement(name *IDName, elem Element) error {
 	scope := vm.getCurrentScope()
